@@ -86,8 +86,7 @@ from .ast import (
 )
 
 def quote(s):
-    assert s.replace('_', '').replace('.', '').replace('/', '').isalnum(), \
-        'Only use quote() with names or IDs in Stone.'
+    # Also used for text taken from doc references, which may be anything.
     return "'%s'" % s
 
 def parse_data_types_from_doc_ref(api, doc, namespace_context, ignore_missing_entries=False):
@@ -1534,12 +1533,22 @@ class IRGenerator:
                             *loc)
                     if isinstance(env[type_name], Environment):
                         # Handle reference to field in imported namespace.
-                        namespace_name, type_name, field_name = val.split('.', 2)
+                        parts = val.split('.', 2)
+                        if len(parts) != 3 or parts[1] not in env[parts[0]]:
+                            raise InvalidSpec(
+                                'Bad doc reference to field of unknown type %s.' %
+                                quote('.'.join(parts[:2])), *loc)
+                        namespace_name, type_name, field_name = parts
                         data_type_to_check = env[namespace_name][type_name]
-                    elif isinstance(env[type_name], Alias):
-                        data_type_to_check = env[type_name].data_type
                     else:
                         data_type_to_check = env[type_name]
+                    while isinstance(data_type_to_check, Alias):
+                        data_type_to_check = data_type_to_check.data_type
+                    if not isinstance(data_type_to_check, (Struct, Union)):
+                        raise InvalidSpec(
+                            'Bad doc reference to field %s of %s, which is not '
+                            'a struct or union.' % (quote(field_name), quote(type_name)),
+                            *loc)
                     if not any(field.name == field_name
                                for field in data_type_to_check.all_fields):
                         raise InvalidSpec(
@@ -1547,7 +1556,11 @@ class IRGenerator:
                             *loc)
                 else:
                     # Referring to a field that's a member of this type
-                    assert type_context is not None
+                    if type_context is None:
+                        raise InvalidSpec(
+                            'Bad doc reference to field %s: a type name is '
+                            'needed outside of a type definition.' % quote(val),
+                            *loc)
                     if not any(field.name == val
                                for field in type_context.all_fields):
                         raise InvalidSpec(
@@ -1566,7 +1579,7 @@ class IRGenerator:
                 if '.' in val:
                     # Handle reference to route in imported namespace.
                     namespace_name, val = val.split('.', 1)
-                    if namespace_name not in env:
+                    if not isinstance(env.get(namespace_name), Environment):
                         raise InvalidSpec(
                             "Unknown doc reference to namespace '%s'." %
                             namespace_name, *loc)
@@ -1574,7 +1587,10 @@ class IRGenerator:
                 else:
                     env_to_check = env
 
-                route_name, version = parse_route_name_and_version(val)
+                try:
+                    route_name, version = parse_route_name_and_version(val)
+                except ValueError as e:
+                    raise InvalidSpec('Bad doc reference to route: %s.' % e.args[0], *loc)
                 if route_name not in env_to_check:
                     raise InvalidSpec(
                         'Unknown doc reference to route {}.'.format(quote(route_name)), *loc)
@@ -1590,7 +1606,7 @@ class IRGenerator:
                 if '.' in val:
                     # Handle reference to type in imported namespace.
                     namespace_name, val = val.split('.', 1)
-                    if namespace_name not in env:
+                    if not isinstance(env.get(namespace_name), Environment):
                         raise InvalidSpec(
                             "Unknown doc reference to namespace '%s'." %
                             namespace_name, *loc)
